@@ -256,8 +256,20 @@ Definition table_cmp {RT R O} (projs : list (RT -> R)) (entry_ok : list R -> O -
   && forallb2 (fun pe v => entry_ok (map (fst pe) seen) (snd pe) v) (combine projs exp) vals.
 
 (* ---- per-kind entry comparisons (tolerances of the colleagues' models, fed with the model's one-shot output) *)
+(* rounding budgets of the correlation and of the difference of means (first order; the formulas of Model/Cpa.v):
+   4 (n + 4) u (sum x^2 / dx + sum y^2 / dy)   and   4 (n + 4) u sum|x| (1/n1 + 1/n0) *)
+Definition corr_tol (p : prec) (l : list Cpa.obs) (dx dy : Qc) : Q :=
+  let kx := (qsum (map sq (map fst l)) / dx)%Qc in
+  let ky := (qsum (map sq (map snd l)) / dy)%Qc in
+  Qred ((4 * inject_Z (Z.of_nat (length l) + 4)) * uround p * (kx + ky)%Qc).
+Definition qabs_sum (l : list Qc) : Qc := qsum (map (fun x : Qc => if Qle_bool 0%Q x then x else (- x)%Qc) l).
+Definition diff_tol (p : prec) (l : list Cpa.dobs) : Q :=
+  let n1 := qlen (Cpa.ones l) in let n0 := qlen (Cpa.zeros l) in
+  Qred ((4 * inject_Z (Z.of_nat (length l) + 4)) * uround p * (qabs_sum (map fst l) * (1 / n1 + 1 / n0))%Qc).
+
 (* correlation: the model's triple (num, dx, dy) against the observed r, sqrt-free; the alternative formulation's triple
-   is n times Pearson's, its conditioning is that of (dx / n, dy / n) *)
+   is n times Pearson's, its conditioning is that of (dx / n, dy / n); a budget >= 1/8 means the float denominators
+   cannot be told from zero: then anything but an infinity is accepted *)
 Definition corr_entry_ok (alt : bool) (p : prec) (l : list Cpa.obs) (t : option Cpa.triple) (v : fval) : bool :=
   match t with
   | None => is_nan v
@@ -265,7 +277,7 @@ Definition corr_entry_ok (alt : bool) (p : prec) (l : list Cpa.obs) (t : option 
       let n := qlen l in
       let dx' := if alt then (dx / n)%Qc else dx in
       let dy' := if alt then (dy / n)%Qc else dy in
-      let tol := Cpa.cpa_tol p (length l) l dx' dy' in
+      let tol := corr_tol p l dx' dy' in
       if Qle_bool (1 # 8) tol then negb (is_inf v)
       else match v with
            | Fin m e => Cpa.close_r (q_of_fin m e) tol num (dx * dy)%Qc
@@ -276,7 +288,7 @@ Definition dpa_entry_ok (p : prec) (l : list Cpa.dobs) (d : option Qc) (v : fval
   match d with
   | None => is_nan v
   | Some x => match v with
-              | Fin m e => q_close_abs (Cpa.dpa_tol p (length l) l) (q_of_fin m e) x
+              | Fin m e => q_close_abs (diff_tol p l) (q_of_fin m e) x
               | _ => false
               end
   end.
